@@ -12,6 +12,7 @@ RULE = ("each case takes two parts A and B (repository proteins, cut-outs, chime
         "Non-trivial: both parts have >= 2 titratable groups and >= 1 Coulomb determinant each; "
         "distinct = distinct (digest of A, digest of B, d)."
         " 25 % of the built cases run all four executions with a parameter file (common charge centres, shared determinants, penalised groups kept).")
+RULE = RULE + ' Round 8: 25 % of the unions are joined cat-style (MASTER / END / HEADER / CRYST1 records between the parts).'
 ASSUMPTIONS = ["parts taken from files are reduced to their first alternate location; alternate locations are then added "
                "under controlled labels (15 % of the built cases)"]
 TIMEOUT = {"quick": 2400, "thorough": 14400}
